@@ -5,6 +5,7 @@ package harness
 import (
 	"fmt"
 	"io"
+	"strings"
 	"testing"
 
 	"github.com/ipfs/go-cid"
@@ -262,5 +263,42 @@ func TestC20_P_PathOrder(t *testing.T) {
 		}
 		ev.Case(fmt.Sprintf("%s %s", kinds, which), len(segs) >= 2 && sh, "kinds:"+kinds, "target:"+which)
 		ev.Sample(map[string]any{"path": path, "kinds": kinds, "target": which, "requested": len(first)})
+	})
+}
+
+// TestC20_P_HandmadeFileOrder: depth-first link order also on hand-assembled DAGs with empty chunks.
+func TestC20_P_HandmadeFileOrder(t *testing.T) {
+	ev := newEvid(t, "case = hand-assembled well-formed file DAG whose chunks may be empty (see C06), full sequential read / preload / entity walk on a fresh node, twice; oracle = independent pre-order walk; non-trivial = DAG with an empty chunk; distinct by (chunk pattern, leaf kind, levels, op)")
+	rapid.Check(t, func(t *rapid.T) {
+		fc := genHandFileDAG(t)
+		opName := rapid.SampledFrom([]string{"AsBytes", "unixfs-preload"}).Draw(t, "op")
+		ls := fc.St.LinkSystem()
+		op := func(pn datamodel.Node) error {
+			if opName == "unixfs-preload" {
+				_, err := ls.KnownReifiers["unixfs-preload"](lc0, pn, ls)
+				return err
+			}
+			rn, err := ls.KnownReifiers["unixfs"](lc0, pn, ls)
+			if err != nil {
+				return err
+			}
+			b, err := rn.AsBytes()
+			if err == nil && string(b) != string(fc.Data) {
+				return fmt.Errorf("bytes differ")
+			}
+			return err
+		}
+		want := fc.Tree.PreOrder()[1:]
+		for rep := 0; rep < 2; rep++ {
+			got, err := c20Run(fc.St, fc.Root, op)
+			if err != nil {
+				t.Fatalf("C20 [%s] %s: %v", fc.Desc, opName, err)
+			}
+			if fmt.Sprint(got) != fmt.Sprint(want) {
+				t.Fatalf("C20 [%s] %s: request order %v, depth-first link order is %v", fc.Desc, opName, shortCids(got), shortCids(want))
+			}
+		}
+		ev.Case(fc.Writer+" "+opName, strings.Contains(fc.Writer, "0"), "op:"+opName)
+		ev.Sample(map[string]any{"file": fc.Desc, "op": opName})
 	})
 }
